@@ -20,6 +20,8 @@
        wrapper / loader as transformers of that description (driven by the generated tables),
        and the loader decision procedure (an interpreter of the constructor's check list).
 -/
+import Alpaqa.Model.Scalar
+
 
 namespace Alpaqa.C20
 
@@ -113,6 +115,41 @@ structure TEDispatch where
   args : List String
   deriving DecidableEq, Repr, Inhabited
 
+/-- What a counting wrapper stores: `ProblemWithCounters<Prob>` owns a copy of the problem,
+    `ProblemWithCounters<const Prob &>` aliases the caller's object. -/
+inductive Holds where
+  | value | reference
+  deriving DecidableEq, Repr, Inhabited
+
+/-- `template <class Problem> auto name(param p) { … ProbWithCnt = wrapper<templateArg>; return ProbWithCnt{…}; }`
+    (`forwardsTo`: the body is `return other(p);`, the other fields are then those of `other`) -/
+structure HelperEntry where
+  name : String
+  wrapper : String
+  holds : Holds
+  templateArg : String
+  param : String
+  forwardsTo : Option String
+  deriving DecidableEq, Repr, Inhabited
+
+/-- `[for (index_t v = 0; v < bound; ++v)] out.segment(off, len) = F(in.segment(off, len), box)` -/
+structure SegRule where
+  loop : Option (String × String)
+  off : String
+  len : String
+  box : String
+  deriving DecidableEq, Repr, Inhabited
+
+/-- `DLControlProblem`'s own projections: box initialisation of the constructor
+    (`boxFill`: (target, `if` / `else if`, condition, getter called)) and the two bodies -/
+structure OwnProj where
+  dims : List (String × String)
+  boxSizes : List (String × String)
+  boxFill : List (String × String × String × String)
+  diff : List SegRule
+  mult : List SegRule
+  deriving DecidableEq, Repr, Inhabited
+
 /-- One function-pointer member of the C-ABI table in `dl-problem.h`. -/
 structure AbiMember where
   name : String
@@ -176,6 +213,8 @@ structure DLTable where
   /-- members defined in dl-problem.cpp whose body does not use the plug-in's function table at all
       (implemented by the class itself, e.g. `DLControlProblem::eval_proj_diff_g`) -/
   own : List String
+  /-- members defined inline in dl-problem.hpp that are not reads of the table: (name, body) -/
+  inlineBodies : List (String × String)
   deriving Repr, Inhabited
 
 /-! ### Predicates decided over the tables -/
@@ -372,6 +411,181 @@ def srun (rk : ResetKind) (s : SState F) : List (COp F) → SState F × List COu
       (s2, o :: os)
 
 end counters
+
+/-! ## 2b. What a wrapper sees when the underlying problem changes
+
+  `σ` = the data of a problem object (bounds, function objects, parameters).  The implementation
+  state stores, per wrapper, either nothing (it aliases the one underlying object) or its own copy;
+  the specification gives every wrapper a *view* `σ → σ` of the underlying object's current data
+  (`id` for an alias, a constant function for a snapshot).  No sharing in the specification. -/
+
+section aliasing
+variable {σ : Type}
+
+structure WState (σ : Type) where
+  nW : Nat
+  under : σ
+  /-- `none`: no such wrapper; `some none`: holds a reference to `under`; `some (some x)`: owns the copy `x` -/
+  held : Nat → Option (Option σ)
+
+inductive WOp (σ : Type) where
+  | wrap (h : Holds)                    -- `problem_with_counters(u)` / `problem_with_counters_ref(u)`
+  | copy (w : Nat)                      -- copy construction of a wrapper
+  | mutate (f : σ → σ)                  -- the caller changes the underlying problem
+  | mutateVia (w : Nat) (f : σ → σ)     -- change through the wrapper's own `problem` member
+  | call (w : Nat)                      -- an evaluation through wrapper `w`
+
+inductive WOut (σ : Type) where
+  | created (w : Nat)
+  | ok
+  | saw (x : σ)          -- the data the evaluation ran on
+  | constRef             -- `problem` is a `const Prob &`: cannot be changed through the wrapper
+  | bad                  -- protocol error: no such wrapper
+
+def WState.init (u : σ) : WState σ := ⟨0, u, fun _ => none⟩
+
+def wstep (s : WState σ) : WOp σ → WState σ × WOut σ
+  | .wrap .value =>
+      ({ s with nW := s.nW + 1, held := upd s.held s.nW (some (some s.under)) }, .created s.nW)
+  | .wrap .reference =>
+      ({ s with nW := s.nW + 1, held := upd s.held s.nW (some none) }, .created s.nW)
+  | .copy w =>
+      if w < s.nW then ({ s with nW := s.nW + 1, held := upd s.held s.nW (s.held w) }, .created s.nW)
+      else (s, .bad)
+  | .mutate f => ({ s with under := f s.under }, .ok)
+  | .mutateVia w f =>
+      if w < s.nW then
+        match s.held w with
+        | some (some x) => ({ s with held := upd s.held w (some (some (f x))) }, .ok)
+        | some none => (s, .constRef)
+        | none => (s, .bad)
+      else (s, .bad)
+  | .call w =>
+      if w < s.nW then
+        match s.held w with
+        | some none => (s, .saw s.under)
+        | some (some x) => (s, .saw x)
+        | none => (s, .bad)
+      else (s, .bad)
+
+def wrun (s : WState σ) : List (WOp σ) → WState σ × List (WOut σ)
+  | [] => (s, [])
+  | op :: ops =>
+      let (s1, o) := wstep s op
+      let (s2, os) := wrun s1 ops
+      (s2, o :: os)
+
+/-- Specification: per wrapper a view of the underlying object's current data, and whether it is an alias. -/
+structure VState (σ : Type) where
+  nW : Nat
+  under : σ
+  view : Nat → σ → σ
+  isRef : Nat → Bool
+
+def VState.init (u : σ) : VState σ := ⟨0, u, fun _ => id, fun _ => false⟩
+
+def vstep (s : VState σ) : WOp σ → VState σ × WOut σ
+  | .wrap .value =>
+      ({ s with nW := s.nW + 1, view := upd s.view s.nW (fun _ => s.under), isRef := upd s.isRef s.nW false },
+       .created s.nW)
+  | .wrap .reference =>
+      ({ s with nW := s.nW + 1, view := upd s.view s.nW id, isRef := upd s.isRef s.nW true }, .created s.nW)
+  | .copy w =>
+      if w < s.nW then
+        ({ s with nW := s.nW + 1, view := upd s.view s.nW (s.view w), isRef := upd s.isRef s.nW (s.isRef w) },
+         .created s.nW)
+      else (s, .bad)
+  | .mutate f => ({ s with under := f s.under }, .ok)
+  | .mutateVia w f =>
+      if w < s.nW then
+        if s.isRef w then (s, .constRef)
+        else ({ s with view := upd s.view w (fun u => f (s.view w u)) }, .ok)
+      else (s, .bad)
+  | .call w => if w < s.nW then (s, .saw (s.view w s.under)) else (s, .bad)
+
+def vrun (s : VState σ) : List (WOp σ) → VState σ × List (WOut σ)
+  | [] => (s, [])
+  | op :: ops =>
+      let (s1, o) := vstep s op
+      let (s2, os) := vrun s1 ops
+      (s2, o :: os)
+
+/-- the underlying object's data after a history: only the caller's own changes count -/
+def underAfter (u : σ) : List (WOp σ) → σ
+  | [] => u
+  | .mutate f :: ops => underAfter (f u) ops
+  | _ :: ops => underAfter u ops
+
+end aliasing
+
+def holdsOf (tbl : List HelperEntry) (name : String) : Option Holds :=
+  (tbl.find? (·.name == name)).map (·.holds)
+
+/-! ### Counters and aliasing together: one wrapper index space -/
+
+section system
+variable {σ F : Type} [DecidableEq F]
+
+inductive SOp (σ F : Type) where
+  | create (helper : String)            -- wrap the underlying problem with the named helper function
+  | copy (w : Nat)
+  | decouple (w : Nat)
+  | reset (w : Nat)
+  | mutate (f : σ → σ)
+  | mutateVia (w : Nat) (f : σ → σ)
+  | call (w : Nat) (fn : F)
+
+structure Sys (σ F : Type) where
+  c : CState F
+  w : WState σ
+
+/-- one operation on the pair (counter heap, wrapper data); an unknown helper name creates nothing -/
+def sysStep (tbl : List HelperEntry) (rk : ResetKind) (s : Sys σ F) : SOp σ F → Sys σ F × COut × WOut σ
+  | .create h =>
+      match holdsOf tbl h with
+      | none => (s, .badWrapper, .bad)
+      | some k =>
+          let (c', o1) := cstep rk s.c .create
+          let (w', o2) := wstep s.w (.wrap k)
+          (⟨c', w'⟩, o1, o2)
+  | .copy v =>
+      let (c', o1) := cstep rk s.c (.copy v)
+      let (w', o2) := wstep s.w (.copy v)
+      (⟨c', w'⟩, o1, o2)
+  | .decouple v => let (c', o1) := cstep rk s.c (.decouple v); (⟨c', s.w⟩, o1, .ok)
+  | .reset v => let (c', o1) := cstep rk s.c (.reset v); (⟨c', s.w⟩, o1, .ok)
+  | .mutate f => let (w', o2) := wstep s.w (.mutate f); (⟨s.c, w'⟩, .ok, o2)
+  | .mutateVia v f => let (w', o2) := wstep s.w (.mutateVia v f); (⟨s.c, w'⟩, .ok, o2)
+  | .call v fn =>
+      let (c', o1) := cstep rk s.c (.call v fn)
+      let (w', o2) := wstep s.w (.call v)
+      (⟨c', w'⟩, o1, o2)
+
+def sysRun (tbl : List HelperEntry) (rk : ResetKind) (s : Sys σ F) : List (SOp σ F) → Sys σ F
+  | [] => s
+  | op :: ops => sysRun tbl rk (sysStep tbl rk s op).1 ops
+
+/-- the counter operations of a history: the changes of problem data are dropped -/
+def SOp.toC (tbl : List HelperEntry) : SOp σ F → Option (COp F)
+  | .create h => (holdsOf tbl h).map fun _ => .create
+  | .copy v => some (.copy v)
+  | .decouple v => some (.decouple v)
+  | .reset v => some (.reset v)
+  | .mutate _ => none
+  | .mutateVia _ _ => none
+  | .call v fn => some (.call v fn)
+
+/-- the data operations of a history: counter management is dropped -/
+def SOp.toW (tbl : List HelperEntry) : SOp σ F → Option (WOp σ)
+  | .create h => (holdsOf tbl h).map .wrap
+  | .copy v => some (.copy v)
+  | .decouple _ => none
+  | .reset _ => none
+  | .mutate f => some (.mutate f)
+  | .mutateVia v f => some (.mutateVia v f)
+  | .call v _ => some (.call v)
+
+end system
 
 /-! ## 3. Vtable resolution, wrappers and loaders as description transformers -/
 
@@ -646,6 +860,22 @@ def loadRun (derives : Bool) (d : PluginDescr) : LoadSt → List LoadStep → Lo
 def load (derives : Bool) (steps : List LoadStep) (d : PluginDescr) : LoadResult :=
   loadRun derives d {} steps
 
+/-- does the constructor reach (and run) `register_func(user_param)`? -/
+def registerCalledRun (derives : Bool) (d : PluginDescr) : LoadSt → List LoadStep → Bool
+  | _, [] => false
+  | st, s :: ss =>
+      match loadStep derives d st s with
+      | .inl st' => s == .callRegister || registerCalledRun derives d st' ss
+      | .inr _ => false
+
+def registerCalled (derives : Bool) (steps : List LoadStep) (d : PluginDescr) : Bool :=
+  registerCalledRun derives d {} steps
+
+/-- documented: the registration function of a plug-in runs iff the library could be opened, its
+    `<name>_version()` (when exported) reports this ABI, and the registration symbol exists -/
+def registerSpec (d : PluginDescr) : Bool :=
+  !d.emptyPath && d.libLoads && d.versionSym != .mismatch && d.registerSym
+
 /-- The documented decision: what a loader should answer for a plug-in description.
     `swallow` = a mismatching `<name>_version()` is not treated as an error (what the
     constructor as written does when `invalid_abi_error` derives from the caught type). -/
@@ -666,5 +896,49 @@ def PluginDescr.all : List PluginDescr :=
   [VersionSym.missing, .good, .mismatch].flatMap fun v => allBool.flatMap fun c =>
   allBool.flatMap fun e => allBool.flatMap fun x => allBool.map fun h =>
     ⟨a, b, v, c, e, x, h⟩
+
+/-! ## 4. `DLControlProblem`'s own projections (no C-ABI member)
+
+  Bounds are `Option`s (`none` = the C++ stores ±inf).  `getD` / `getDN` = what the plug-in's
+  `get_D` / `get_D_N` answer, `none` when the table member is null. -/
+
+section proj
+variable {α : Type}
+
+abbrev BoxO (α : Type) := List (Bnd α × Bnd α)
+
+def infBox (n : Nat) : BoxO α := List.replicate n (none, none)
+
+/-- the constructor: `D = Box{nc}; D_N = Box{nc_N}; if (provides_get_D()) get_D(D);
+    if (provides_get_D_N()) get_D_N(D_N); else if (provides_get_D() && nc_N == nc) get_D(D_N);` -/
+def dlocpBoxes (nc ncN : Nat) (getD getDN : Option (BoxO α)) : BoxO α × BoxO α :=
+  let D := match getD with | some b => b | none => infBox nc
+  let DN := match getDN with
+    | some b => b
+    | none => match getD with
+      | some b => if ncN = nc then b else infBox ncN
+      | none => infBox ncN
+  (D, DN)
+
+/-- all stages: `N` copies of the stage box followed by the terminal box -/
+def tileBox (N : Nat) (D DN : BoxO α) : BoxO α := (List.replicate N D).flatten ++ DN
+
+variable [LT α] [DecidableLT α]
+
+/-- `projecting_difference(v, box) = v - v.cwiseMax(lb).cwiseMin(ub)`, componentwise -/
+def boxDiff [Sub α] (B : BoxO α) (z : List α) : List α :=
+  List.zipWith (fun v b => v - minUb (maxLb v b.1) b.2) z B
+
+/-- `eval_proj_multipliers_box(D, y, M, 0)`: `y.cwiseMax(lb = -inf ? 0 : -M).cwiseMin(ub = +inf ? 0 : M)` -/
+def boxMult [Neg α] [OfNat α 0] (M : α) (B : BoxO α) (y : List α) : List α :=
+  List.zipWith (fun v b =>
+    emin (emax v (match b.1 with | none => 0 | some _ => -M)) (match b.2 with | none => 0 | some _ => M)) y B
+
+def dlocpProjDiff [Sub α] (N : Nat) (D DN : BoxO α) (z : List α) : List α := boxDiff (tileBox N D DN) z
+
+def dlocpProjMult [Neg α] [OfNat α 0] (N : Nat) (D DN : BoxO α) (M : α) (y : List α) : List α :=
+  boxMult M (tileBox N D DN) y
+
+end proj
 
 end Alpaqa.C20
